@@ -242,6 +242,7 @@ def holder(obj):
 
 
 _ENC = []
+LAST_RAW = []      # the value the last plain observer call returned (the caller's to edit: see edit_result)
 
 
 def call_observer(obj, name):
@@ -284,6 +285,41 @@ def call_observer(obj, name):
             r = a.fget(obj)
         else:
             r = getattr(obj, name)()
+        LAST_RAW[:] = [r]
         return project(r), False
     except Exception as e:  # pylint: disable=broad-except
         return 'raised:' + type(e).__name__, True
+
+
+def edit_result():
+    """the caller edits, in place, what the last observer returned (and everything mutable reachable one level down);
+    returns a description or None when the result is immutable"""
+    import collections as _c
+    if not LAST_RAW:
+        return None
+    done = []
+
+    def edit(v, depth=0):
+        if isinstance(v, bytearray):
+            v += b'\x00verif'
+            if len(v) > 8:
+                v[0] ^= 0xff
+            done.append('bytearray')
+        elif isinstance(v, list):
+            v.append('verif-result-edit')
+            if depth < 1:
+                for x in list(v)[:3]:
+                    edit(x, depth + 1)
+            done.append('list')
+        elif isinstance(v, (dict, _c.OrderedDict)):
+            if depth < 1:
+                for x in list(v.values())[:6]:
+                    edit(x, depth + 1)
+            v['verif-result-edit'] = 1
+            done.append('dict')
+        elif isinstance(v, set):
+            v.add('verif-result-edit')
+            done.append('set')
+    edit(LAST_RAW[0])
+    LAST_RAW[:] = []
+    return '+'.join(sorted(set(done))) if done else None
